@@ -466,7 +466,7 @@ fn gen_program(r: &mut Rng) -> Gen {
         ints.push(v);
     }
     for _ in 0..n {
-        match r.below(13) {
+        match r.below(15) {
             0 => {
                 let v = fresh("a");
                 defs.push(format!("{v} = {}", r.range(-100, 100000)));
@@ -566,6 +566,19 @@ fn gen_program(r: &mut Rng) -> Gen {
                 ints.push(v);
                 feats.push("equal");
             }
+            13 | 14 => {
+                // a closure FACTORY and two of its products: same function index, different captures
+                let mk = fresh("mk");
+                defs.push(format!(
+                    "{mk} = #'int {{ =n => #'int {{ [[~, n] __integer_multiply__, n] __integer_subtract__ }} }}"
+                ));
+                for _ in 0..2 {
+                    let v = fresh("g");
+                    defs.push(format!("{v} = {} {mk}", r.range(2, 40)));
+                    fns.push(v);
+                }
+                feats.push("closure-factory-two-products");
+            }
             12 => {
                 // dead code: never referenced again
                 let v = fresh("dead");
@@ -595,6 +608,16 @@ fn gen_program(r: &mut Rng) -> Gen {
     if !fns.is_empty() && r.chance(1, 2) {
         parts.push(format!("{} {}", r.pick(&ints), r.pick(&fns)));
         feats.push("call");
+    }
+    if fns.len() >= 2 && r.chance(2, 3) {
+        // the entry captures SEVERAL closures (possibly sharing a function index) and applies them in a row
+        let i = r.usize(fns.len());
+        let mut j = r.usize(fns.len());
+        if j == i {
+            j = (i + 1) % fns.len();
+        }
+        parts.push(format!("{} {} {}", r.range(1, 9), fns[i], fns[j]));
+        feats.push("entry-captures-two-closures");
     }
     let mut body = format!("[{}]", parts.join(", "));
     // concurrency inside the body
@@ -1146,7 +1169,13 @@ fn main() {
             }
         }
         if let Some((pb, eb)) = extract_entry(&mut cx, &src, &modules) {
-            let rep = packaging_case(&mut cx, &mut r, "single", &src, &pb, eb);
+            let mut rep = packaging_case(&mut cx, &mut r, "single", &src, &pb, eb);
+            let in_place = format!("{} =zzf9,\n[] zzf9", src.trim_end().trim_end_matches(','));
+            if let Ok(u) = compile_source(&in_place, &modules, cx.b) {
+                let bc = u.program.to_bytecode(Some(u.entry));
+                let rp = run_in_env(cx.b, &bc, &[], 1, cx.max_rounds);
+                rep.outcomes.insert(0, ("called-in-place".into(), rp.outcome));
+            }
             println!("[entry] outcomes: {:?}\n[entry] rejections: {:?}", rep.outcomes, rep.rejections);
             report(&mut cx, "entry", "single", &src, &rep, json!({}));
         } else {
@@ -1229,9 +1258,17 @@ fn main() {
         }
         // `quiv run` path for corpus programs that evaluate to a function
         if let Some((pb, eb)) = extract_entry(&mut cx, src, &no_modules) {
-            let repb = packaging_case(&mut cx, &mut r, label, src, &pb, eb);
+            let mut repb = packaging_case(&mut cx, &mut r, label, src, &pb, eb);
             cx.ev.case(&(label.split('#').next().unwrap_or(""), src, "entry"), repb.outcomes.len() >= 2);
-            report(&mut cx, "entry", label, src, &repb, json!({}));
+            // the extracted (capture-injected) entry must behave like calling the closure in place
+            let in_place = format!("{} =zzf9,\n[] zzf9", src.trim_end().trim_end_matches(','));
+            if let Ok(u) = compile_source(&in_place, &no_modules, cx.b) {
+                let bc = u.program.to_bytecode(Some(u.entry));
+                let rp = run_in_env(cx.b, &bc, &[], 1, cx.max_rounds);
+                repb.outcomes.insert(0, ("called-in-place".into(), rp.outcome));
+                cx.ev.hit("entry:compared-with-call-in-place");
+            }
+            report(&mut cx, "entry", label, src, &repb, json!({"in_place": in_place}));
         }
     }
 
